@@ -39,6 +39,10 @@ func Restore(r io.Reader, dstPath string) (int64, error) {
 		return totalRead, fmt.Errorf("unmarshaling header: %w", err)
 	}
 
+	if hdr.FormatVersion != SnapshotFormatVersion {
+		return totalRead, fmt.Errorf("unsupported snapshot format version %d", hdr.FormatVersion)
+	}
+
 	// The snapshot must be a full snapshot to extract a database.
 	full := hdr.GetFull()
 	if full == nil {
